@@ -20,6 +20,7 @@ PROFILES = {
     'hidden': {'hidden_bars': True},
     'explore_chords': {'chords': 'explore'},
     'kern_only': {'kern_only': True, 'chords': 'core'},
+    'multi_sigs': {'multi_sigs': True},          # signifiers of more than one character ('&(' '[y' 'Ww' 'L<' ...) among the others
 }
 
 
